@@ -353,6 +353,46 @@ func cmdStopFlush(f hx.Flags, r *hx.Result) {
 		}
 		r.Eval(150)
 	}
+	// targets that reject every write (the interval's file is a link to /dev/full): nothing can be flushed, but Stop
+	// must still return in bounded time and release the descriptors
+	if _, err := os.Stat("/dev/full"); err == nil {
+		fixed := time.Date(2035, 6, 7, 8, 0, 0, 0, time.UTC)
+		log.VerifNow = func(time.Time) time.Time { return fixed }
+		for i, async := range []bool{false, true} {
+			dir := filepath.Join(tmp, fmt.Sprintf("full-rfl-%d", i))
+			_ = os.MkdirAll(dir, 0o755)
+			for _, name := range []string{"app.log.", "app.log.wf."} {
+				_ = os.Symlink("/dev/full", filepath.Join(dir, name+fixed.Format("20060102150405")))
+			}
+			rf := &log.RollingFileLogger{
+				LoggerBase: log.LoggerBase{Name: "d", Level: log.LevelRange{MinLevel: log.InfoLevel, MaxLevel: log.MaxLevel}},
+				FileDir:    dir, FileName: "app.log", Separate: true, Rotation: log.TimeRotation{Interval: time.Hour}, MaxAge: 10,
+				AsyncWrite: async, BufferSize: 100, BufferFullPolicy: log.BufferFullPolicyBlock,
+			}
+			desc := map[string]any{"direct": "RollingFileLogger", "async": async, "target": "rejects every write (ENOSPC)"}
+			if ret, p := hx.Within(10*time.Second, func() {
+				if err := rf.Start(); err != nil {
+					panic(err)
+				}
+				for k := 1; k <= 20; k++ {
+					e := log.GetEvent()
+					e.Level, e.Time, e.Tag = []log.Level{log.InfoLevel, log.ErrorLevel}[k%2], time.Now(), "t"
+					e.Fields = []log.Field{log.Int("id", int64(k))}
+					rf.Append(e)
+				}
+				rf.Write([]byte("raw\n"))
+				rf.Stop()
+			}); !ret || p != nil {
+				r.Violate("blocked:failing-target", desc, "Start/Append/Write/Stop returned=%v panic=%v", ret, p)
+				break // a spinning goroutine is left behind: do not pile up more
+			}
+			if fds := openUnder("/dev/full"); len(fds) > 0 {
+				r.Violate("fd-leak:failing-target", desc, "descriptors still open after Stop: %v", fds)
+			}
+			r.Eval(21)
+		}
+		log.VerifNow = nil
+	}
 	log.Destroy()
 	log.VerifReset()
 }
